@@ -216,3 +216,37 @@ Proof.
   exists g. vm_compute in E. inversion E; subst. vm_compute. repeat split; reflexivity.
 Qed.
 Print Assumptions C01_registry_sound_refuted.
+
+(* F-C01c: "nothing unreachable is present" is FALSE for stage B1 even when every answer reports the requested
+   specifier as the final one.  1 imports 2 and 4; 2 imports 3; 4 imports 2 at source phase.  2 is not
+   WebAssembly, so the asset request of 4 files an error at 2 - replacing the module entry of 2, whose
+   dependency 3 was already loaded: 3 stays in the graph and nothing leads to it.  (Model and real builder
+   agree on this graph; the judgement below is what the C01 check evaluates on every alias-free world.) *)
+From DG Require Model.RunJsrAll.
+Definition c01c_dep (t : N) (target : spec) (rg : N) (fl : dflags) (attr : N) : dep * dflags :=
+  ({| d_text := t; d_filelike := false; d_code := ROk target rg; d_type := RNone; d_dyn := false;
+      d_deno_types := false; d_attr := attr |}, fl).
+Definition c01c_mod (s : spec) (ds : list (dep * dflags)) : spec * wresp :=
+  (s, WModule s {| wm_hash_raw := 0; wm_hash_text := 0; wm_media := MTypeScript; wm_parse_ok := true; wm_kind := MkJs; wm_deps := ds; wm_tdep := None |}).
+Definition c01c_world : world :=
+  {| w_resp := [c01c_mod 1 [c01c_dep 10 2 20 plain_dep 0; c01c_dep 11 4 21 plain_dep 0];
+                c01c_mod 2 [c01c_dep 12 3 22 plain_dep 0];
+                c01c_mod 3 [];
+                c01c_mod 4 [c01c_dep 13 2 23 {| dfl_asset := true; dfl_sp := Some 23 |} 9]];
+     w_resp_reload := []; w_http := []; w_lock := None; w_class := []; w_file := [1; 2; 3; 4]; w_max_redirects := 10;
+     w_wasm_ext := []; w_wasm_nodts := []; w_npm := None |}.
+Definition c01c_opts : bopts :=
+  {| bo_kind := KAll; bo_is_dynamic := false; bo_skip_dynamic := false; bo_unstable_bytes := false;
+     bo_unstable_text := false; bo_unstable_css := false |}.
+Theorem C01_b1_sound_refuted :
+  exists W o roots,
+    RunJsrAll.noalias_world W = true /\
+    match build W o (empty_bgraph (bo_kind o)) roots [] with
+    | Some g => has_key 3 (bg_slots g) = true /\
+                lookup 2 (bg_slots g) = Some (BErr (BSourcePhase 2 23)) /\
+                RunJsrAll.b1_orphan_free W g roots false = false /\
+                RunJsrAll.b1_orphan_free W g roots true = true
+    | None => False
+    end.
+Proof. exists c01c_world, c01c_opts, [1]. vm_compute. repeat split; reflexivity. Qed.
+Print Assumptions C01_b1_sound_refuted.
